@@ -13,7 +13,8 @@
    within a set P of names leaves every name outside P bound to the inode it had, and that inode with the bytes
    and mode it had, whatever is written (twin_intact) - the cp -al twin of the property; (3) the flag matters:
    one in-place create changes what the twin reads (in_place_changes_twin). *)
-From Coq Require Import List NArith Bool Lia.
+From Coq Require Import List NArith Bool Lia String.
+Open Scope list_scope.
 From RQ Require Import Base Apply Parser Quilt QuiltProofs FreshInode SavedTree.
 Import ListNotations.
 
@@ -321,6 +322,125 @@ Proof.
   destruct (push_saves_fresh_closed cfg db series fs fs1 st n rejs dm cl fs2 r Hroot Ha Hs) as (added & Hlog & Hops).
   destruct (save_all_tracks dm _ _ _ _ _ Hs) as (added' & Hlog' & Hrun).
   assert (added' = added) by (rewrite Hlog in Hlog'; apply app_inv_head in Hlog'; auto). subst added'.
+  exists added. split; [exact Hlog|]. intros s ds t i Hb Hn Ht HP.
+  eapply (twin_intact _ added s ds _ t i Hb Ht); [rewrite Hn; exact Hrun|exact Hops|exact HP].
+Qed.
+
+(* ---------- the backup phase: a backup file is unlinked before it is written ---------- *)
+
+Definition backup_path (patch k : bytes) : npath := normalize (b ".pc/"%string ++ patch ++ [47%N] ++ k).
+
+Lemma save_backup_tracks dm pn k m fs fs' r : save_backup dm pn k m fs = (fs', r) -> log_tracks fs fs'.
+Proof.
+  unfold save_backup. destruct (has_dotdot _); [intros [= <- _]; apply lt_refl|].
+  set (np := normalize _). unfold mbind.
+  destruct (mop (fun fs => fs_create_dir_all fs (parent np)) _ fs) as [fs1 r1] eqn:E1.
+  assert (T1 : log_tracks fs fs1) by (eapply lt_mop; [|exact E1]; intros a c; apply lt_mkdirs).
+  destruct r1 as [[]|e1|]; [|intros [= <- _]; exact T1|intros [= <- _]; exact T1].
+  destruct (mop (fun fs => fs_remove_file fs np) _ fs1) as [fs2 r2] eqn:E2.
+  assert (T2 : log_tracks fs1 fs2) by (eapply lt_mop; [|exact E2]; intros a c; apply lt_remove).
+  pose proof (lt_trans _ _ _ T1 T2) as T12.
+  destruct r2 as [[]|e2|]; [|intros [= <- _]; exact T12|intros [= <- _]; exact T12].
+  intros E3. eapply lt_trans; [exact T12|]. eapply lt_mop; [|exact E3]. intros a c. apply lt_create.
+Qed.
+
+Theorem save_backup_fresh dm pn k m fs fs' r :
+  save_backup dm pn k m fs = (fs', r) -> step_ok (backup_path pn k) fs fs'.
+Proof.
+  unfold save_backup, backup_path. destruct (has_dotdot _); [intros [= <- _]; apply step_ok_refl|].
+  set (np := normalize _). unfold mbind.
+  destruct (mop (fun fs => fs_create_dir_all fs (parent np)) _ fs) as [fs1 r1] eqn:E1.
+  assert (S1 : step_ok np fs fs1).
+  { apply mop_cases in E1. destruct E1 as [(fs0 & x & Hs & Hop & -> & ->)|[(fs0 & e & Hs & Hop & -> & ->)|(Hs & ->)]].
+    - eapply step_ok_trans; [apply step_ok_same; exact Hs|]. apply (create_dir_all_ok _ _ _ np Hop).
+    - apply step_ok_same; exact Hs.
+    - apply step_ok_same; exact Hs. }
+  destruct r1 as [[]|e1|]; [|intros [= <- _]; exact S1|intros [= <- _]; exact S1].
+  destruct (mop (fun fs => fs_remove_file fs np) _ fs1) as [fs2 r2] eqn:E2.
+  assert (H2 : step_ok np fs1 fs2 /\ (r2 = ROk tt -> is_file fs2 np = false)).
+  { apply mop_cases in E2. destruct E2 as [(fs0 & x & Hs & Hop & -> & ->)|[(fs0 & e & Hs & Hop & -> & ->)|(Hs & ->)]].
+    - destruct (remove_file_ok _ _ _ Hop) as [S F]. split; [|intros _; exact F].
+      eapply step_ok_trans; [apply step_ok_same; exact Hs|exact S].
+    - split; [apply step_ok_same; exact Hs|]. destruct e; [|discriminate].
+      intros _. eapply remove_file_notfound. eassumption.
+    - split; [apply step_ok_same; exact Hs|discriminate]. }
+  destruct H2 as [S2 F2]. pose proof (step_ok_trans _ _ _ _ S1 S2) as S12.
+  destruct r2 as [[]|e2|]; [|intros [= <- _]; exact S12|intros [= <- _]; exact S12].
+  specialize (F2 eq_refl). intros E3.
+  apply mop_cases in E3. destruct E3 as [(fs0 & x & Hs & Hop & -> & _)|[(fs0 & e & Hs & Hop & -> & _)|(Hs & _)]].
+  - eapply step_ok_trans; [exact S12|].
+    eapply step_ok_trans; [apply step_ok_same; exact Hs|]. eapply create_ok; [eassumption|].
+    rewrite (same_tree_is_file _ _ _ Hs). assumption.
+  - eapply step_ok_trans; [exact S12|apply step_ok_same; exact Hs].
+  - eapply step_ok_trans; [exact S12|apply step_ok_same; exact Hs].
+Qed.
+
+(* what a phase adds to the log: truthful, every unlink and create on a path in P, every create of a new entry *)
+Definition phase_ok (P : npath -> Prop) (fs fs' : fsys) : Prop :=
+  exists added, fs_log fs' = fs_log fs ++ added /\ nrun (fnames fs) added = Some (fnames fs') /\ all_ops added P.
+
+Lemma phase_refl P fs : phase_ok P fs fs.
+Proof. exists []. rewrite app_nil_r. repeat split. intros op []. Qed.
+
+Lemma phase_trans P a c d : phase_ok P a c -> phase_ok P c d -> phase_ok P a d.
+Proof.
+  intros (x & Lx & Rx & Ox) (y & Ly & Ry & Oy). exists (x ++ y). rewrite Ly, Lx, app_assoc. split; [reflexivity|].
+  split; [rewrite (nrun_app _ _ _ _ Rx); exact Ry|].
+  intros op Hin. apply in_app_or in Hin. destruct Hin as [H|H]; [apply Ox|apply Oy]; exact H.
+Qed.
+
+Lemma phase_of_step (P : npath -> Prop) p fs fs' : P p -> step_ok p fs fs' -> log_tracks fs fs' -> phase_ok P fs fs'.
+Proof.
+  intros HP [(a1 & L1 & O1) _] (a2 & L2 & R2).
+  assert (a2 = a1) by (rewrite L1 in L2; apply app_inv_head in L2; auto). subst a2.
+  exists a1. repeat split; [exact L1|exact R2|].
+  intros op Hin. specialize (O1 op Hin). destruct op; auto.
+  - subst. exact HP.
+  - destruct O1 as [-> ->]. auto.
+Qed.
+
+Definition is_backup_path (q : npath) : Prop := exists pn k, q = backup_path pn k.
+
+Lemma save_backup_phase dm pn k m fs fs' r : save_backup dm pn k m fs = (fs', r) -> phase_ok is_backup_path fs fs'.
+Proof.
+  intros H. eapply (phase_of_step _ (backup_path pn k)); [exists pn, k; reflexivity| |].
+  - eapply save_backup_fresh; exact H.
+  - eapply save_backup_tracks; exact H.
+Qed.
+
+Theorem backups_phase dm : forall stack ov down_to fs fs' r,
+  backups dm ov stack down_to fs = (fs', r) -> phase_ok is_backup_path fs fs'.
+Proof.
+  induction stack as [|s rest IH]; intros ov down_to fs fs' r; cbn [backups].
+  - intros [= <- _]. apply phase_refl.
+  - destruct (Nat.ltb _ _); [intros [= <- _]; apply phase_refl|].
+    unfold mbind at 1. unfold mlift at 1. destruct (ov_rollback ov s) as [[ov' file]|e|]; try (intros [= <- _]; apply phase_refl).
+    unfold mbind at 1. destruct (save_backup dm (st_patch s) (st_target s) file fs) as [fs1 r1] eqn:E1.
+    pose proof (save_backup_phase _ _ _ _ _ _ _ E1) as P1.
+    destruct r1 as [[]|e1|]; [|intros [= <- _]; exact P1|intros [= <- _]; exact P1].
+    unfold mbind at 1.
+    destruct ((if pf_rename (st_fp s) then _ else mret tt) fs1) as [fs2 r2] eqn:E2.
+    assert (P2 : phase_ok is_backup_path fs1 fs2).
+    { destruct (pf_rename (st_fp s)).
+      - destruct (knew (st_fp s)) as [nn|]; [|injection E2 as <- _; apply phase_refl].
+        destruct (ov_get nn ov') as [nf|]; [|injection E2 as <- _; apply phase_refl].
+        eapply save_backup_phase; exact E2.
+      - injection E2 as <- _. apply phase_refl. }
+    pose proof (phase_trans _ _ _ _ P1 P2) as P12.
+    destruct r2 as [[]|e2|]; [|intros [= <- _]; exact P12|intros [= <- _]; exact P12].
+    intros H3. eapply phase_trans; [exact P12|eapply IH; exact H3].
+Qed.
+
+(* the twin and the backup phase: whatever name is not a backup path keeps its inode, bytes and mode - a backup
+   file that was there (from an earlier push, possibly hard-linked into a copy of .pc) is replaced, not rewritten *)
+Theorem backups_keep_links dm stack ov down_to fs fs' r :
+  backups dm ov stack down_to fs = (fs', r) ->
+  exists added, fs_log fs' = fs_log fs ++ added /\
+    forall s ds t i, bounded s -> inames s = fnames fs -> ilookup t (i_names s) = Some i ->
+      ~ is_backup_path t ->
+      ilookup t (i_names (irun s added ds)) = Some i /\ i_node (irun s added ds) i = i_node s i.
+Proof.
+  intros H. destruct (backups_phase dm _ _ _ _ _ _ H) as (added & Hlog & Hrun & Hops).
   exists added. split; [exact Hlog|]. intros s ds t i Hb Hn Ht HP.
   eapply (twin_intact _ added s ds _ t i Hb Ht); [rewrite Hn; exact Hrun|exact Hops|exact HP].
 Qed.
